@@ -16,7 +16,17 @@
 //
 // Oracle: relicx.Verify(path, TrustOpts()) - integrity on, chain check against
 // the fixture root - must not return success for a protected mutation. Any
-// error (including "not signed") is fine; a panic is tallied, not raised (C11).
+// error (including "not signed") is fine; a panic or a dead verification child
+// is tallied (outcome panic / crash), not raised (C11 owns those).
+//
+// Files: core.go (byte classes, maps, layers), cms.go / semcms.go (CMS ranges
+// and certificate surgery), zipraw.go / zipsem.go (ZIP reader, writer, member
+// mutations), one file per format family, child.go (verification children).
+//
+// Environment (development aids): C02_ONLY=pe,jar,... restricts the formats;
+// C02_KNOWN_EXTRA=key1,key2 treats keys as known; C02_DUMP=dir writes the
+// signed artifacts and their byte maps; C02_BENCH=n times n verifications of
+// every unmodified artifact; --replay <file> re-verifies one recorded case.
 package main
 
 import (
@@ -29,6 +39,7 @@ import (
 	"net/url"
 	"os"
 	"path/filepath"
+	"regexp"
 	"runtime"
 	"runtime/debug"
 	"sort"
@@ -462,7 +473,7 @@ func runFlips(env *Env, targets []flipTarget, workers int) {
 						run.Outcome(a.Fmt + ":flip:" + v.Class.String() + ":" + res.Outcome)
 						if res.Outcome == "panic" || res.Outcome == "crash" {
 							tallyMu.Lock()
-							panics[a.Fmt+": "+res.Outcome+": "+res.Err]++
+							panics[a.Fmt+": "+res.Outcome+": "+digitsRe.ReplaceAllString(res.Err, "N")]++
 							tallyMu.Unlock()
 						}
 						if v.Class == Protected {
@@ -549,7 +560,7 @@ func runSemantic(env *Env, arts []*Artifact, workers int) {
 				tallyMu.Lock()
 				semLog = append(semLog, semRecord{a.ID(), sm.Class, sm.Site, sm.Assert, res.Outcome, short(res.Err, 120), sm.Why})
 				if res.Outcome == "panic" || res.Outcome == "crash" {
-					panics[a.Fmt+": "+res.Outcome+": "+res.Err]++
+					panics[a.Fmt+": "+res.Outcome+": "+digitsRe.ReplaceAllString(res.Err, "N")]++
 				}
 				tallyMu.Unlock()
 				if sm.Assert && strings.HasPrefix(res.Outcome, "accepted") {
@@ -595,6 +606,9 @@ type semRecord struct {
 }
 
 var semLog []semRecord
+
+// panic messages differ only in indices; collapse them for the tally
+var digitsRe = regexp.MustCompile(`[0-9]+`)
 
 func short(s string, n int) string {
 	if len(s) > n {
